@@ -1,7 +1,105 @@
-(* C20 -- placeholder while the proofs are being written *)
+(* C20 -- file transfer through the file-service plugin is byte-exact and checksummed.
+   File/FileServer.v transcribes CS101_FileServer_handleAsdu and CS101_FileServer_runTask (tied to the compiled
+   plugin by differential execution, white-box state included, on every run). *)
 From Coq Require Import ZArith List Bool.
-From L60870 Require Import Dispatch.DispatchBase File.FileServer.
+From L60870 Require Import Dispatch.DispatchBase File.FileServer File.FileSpec File.FileProofs File.FileInv.
 Import ListNotations.
 Local Open Scope Z_scope.
-Example C20_example : max_seg {| f_alp := {| cot_sz := 2; ca_sz := 2; ioa_sz := 3 |}; f_max := 249; f_timeout := 3000; f_fixd := true |} = 236.
-Proof. reflexivity. Qed.
+
+(* Download, for ANY file (1..254 non-empty sections of any sizes), any address sizes / maximum ASDU size with room
+   for at least one octet per segment, and a master following the procedure
+     select, call file, ( call section k, [negative section ack -> the section is repeated]*, positive section ack )*, ack file
+   (messages characterised by their content: any encoding that decodes to them):
+   the trace is exactly  file-ready(length of file) , section-ready(1) , <sections> , last-section(file checksum) , transferComplete(true)
+   where <sections> decomposes (file_obs) into one block per section k in which the segments for k concatenate to
+   (1 + number of repetitions) exact copies of the section, no segment of another section appears, every segment is at
+   most max_seg = maxSizeOfASDU - header - IOA - 4 octets, every last-segment message carries sum(section) mod 256
+   -- also after repetitions -- and the last-section message carries sum(file) mod 256.  The provider is told exactly once. *)
+Theorem C20_bytes_exact : forall c e s0 now sel_m callf pls ackf,
+  good_cfg c -> good_env e -> e_secs e <> [] -> st s0 = Idle ->
+  is_select c e sel_m -> is_call_file c e callf -> length pls = length (e_secs e) -> plan_ok c e 1 pls -> is_ack c e ackf 1 ->
+  exists s' os oa0 oa1 oa2,
+    run c e ([ERx 0 sel_m; ERx 0 callf] ++ file_events pls (e_secs e) ++ [ERx 0 ackf]) s0 now [] =
+    ROk s' now ([CGetFile (e_ca e) (e_ioa e) (e_nof e) (-1); CFileSize (file_size e);
+                 OSend 0 oa0 (e_ca e) (e_ioa e) (e_nof e) (TFileReady (file_size e) true);
+                 CSectionSize 0 (len (hd [] (e_secs e)));
+                 OSend 0 oa1 (e_ca e) (e_ioa e) (e_nof e) (TSectionReady 1 (len (hd [] (e_secs e))))]
+                ++ os ++
+                [CSectionSize (Z.of_nat (length (e_secs e))) 0;
+                 OSend 0 oa2 (e_ca e) (e_ioa e) (e_nof e) (TLastSection (Z.of_nat (length (e_secs e)) + 1) (chk (concat (e_secs e))));
+                 CComplete true]) /\
+    st s' = Idle /\ sel s' = false /\ file_obs c 1 (e_secs e) pls os.
+Proof. exact download_exact. Qed.
+
+(* inside the section blocks nothing else happens: no outcome notification, no last-section message, all segments in size *)
+Theorem C20_section_blocks_quiet : forall c k secs pls os, file_obs c k secs pls os ->
+  completes os = [] /\ last_sections os = [] /\ forallb (seg_len_ok (max_seg c)) os = true.
+Proof. exact file_obs_quiet. Qed.
+
+(* the segment pump alone (any start offset, any running checksum): used for first transmissions and repetitions *)
+Theorem C20_segment_pump : forall c e b k sec, good_cfg c -> section e k sec -> sel b = true -> selc b = 0 ->
+  forall n o sc fc now, 0 <= o <= len sec -> 0 <= sc < 256 -> (Z.to_nat (len sec - o) < n)%nat ->
+  exists obs,
+    run c e (repeat (ERun 0) n) (mkS b Transmit k o (len sec) sc fc now) now [] =
+      ROk (mkS b WaitSectionAck k (len sec) (len sec) ((sc + sum (skipn (Z.to_nat o) sec)) mod 256) fc now) now obs /\
+    segments k obs = skipn (Z.to_nat o) sec /\ forallb (seg_len_ok (max_seg c)) obs = true /\
+    last_segments obs = [(k, (sc + sum (skipn (Z.to_nat o) sec)) mod 256)] /\ forallb (only_transfer k) obs = true.
+Proof. exact transmit_runs. Qed.
+
+(* repeating a section (negative section acknowledgement, any number of times) leaves state and checksums unchanged *)
+Theorem C20_repeat_keeps_checksums : forall c e b k sec fc now, good_cfg c -> bound b e -> section e k sec ->
+  forall nacks, Forall (fun a => is_ack c e a 4) nacks ->
+  exists os, run c e (concat (map (round_events sec) nacks)) (mkS b WaitSectionAck k (len sec) (len sec) (chk sec) fc now) now [] =
+             ROk (mkS b WaitSectionAck k (len sec) (len sec) (chk sec) fc now) now os /\ sec_obs c k sec (length nacks) os.
+Proof. exact repeated_rounds. Qed.
+
+(* Upload: the receiver callback gets every segment of a section octet-exact with offsets 0, los1, los1+los2, ... *)
+Theorem C20_upload_offsets : forall c e now, 0 <= f_timeout c ->
+  forall msgs s, Forall (fun m => is_segment_msg c (fst (fst m)) (snd (fst m)) (snd m)) msgs ->
+  st s = Receive -> rcv s = true -> last s = now ->
+  exists s', run c e (map (fun m => ERx 0 (fst (fst m))) msgs) s now [] = ROk s' now (offsets_obs (off s) msgs) /\
+             st s' = Receive /\ rcv s' = true /\ last s' = now /\ off s' = off s + total_len msgs /\ nos s' = nos s /\ size s' = size s.
+Proof. exact upload_offsets. Qed.
+
+(* whatever state the server is in and whatever it receives (any message, any time): the provider is told an outcome only
+   by a file acknowledgement (F_AF_NA_1), at most one notification per message, and the transfer is over afterwards
+   (idle, nothing selected -- so one selection is reported at most once); the segment pump never reports anything *)
+Theorem C20_outcome_only_on_file_ack : forall c e now conn a s s' o r b,
+  handle_asdu c e now conn a s = HOk s' o r -> In (CComplete b) o ->
+  tid a = 124 /\ st s' = Idle /\ sel s' = false /\ o = [CComplete b].
+Proof. exact outcome_only_on_file_ack. Qed.
+Theorem C20_pump_tells_no_outcome : forall c e now conn s b, ~ In (CComplete b) (snd (run_task c e now conn s)).
+Proof. exact run_task_tells_no_outcome. Qed.
+
+(* "reported successful only if all octets were transferred" does NOT hold for arbitrary masters: a negative
+   call-section skips a section and the positive file acknowledgement is still reported as success (open finding);
+   C20_bytes_exact is the part that holds (partial: procedure-following masters incl. repetitions) *)
+Theorem C20_success_only_if_complete_refuted :
+  let o := obs_of (run (cfg0 true) env0 skip_script fs0 1000 []) in
+  completes o = [true] /\ segments 1 o = [] /\ segments 2 o = [1; 2].
+Proof. exact skip_section_success. Qed.
+
+(* the pinned snapshot (before the repairs): witnesses *)
+Theorem C20_snapshot_repeat_checksum_refuted :
+  last_sections (obs_of (run (cfg0 false) env0 repeat_script fs0 1000 [])) = [(3, 123)] /\ chk (concat (e_secs env0)) = 63 /\
+  last_sections (obs_of (run (cfg0 true) env0 repeat_script fs0 1000 [])) = [(3, 63)].
+Proof. exact snapshot_repeat_falsifies_checksum. Qed.
+Theorem C20_snapshot_stale_section_checksum_refuted :
+  last_segments (obs_of (run (cfg0 false) env0 stale_script fs0 1000 [])) = [(1, 120)] /\
+  last_segments (obs_of (run (cfg0 true) env0 stale_script fs0 1000 [])) = [(1, 60)] /\ chk [10; 20; 30] = 60.
+Proof. exact snapshot_stale_section_checksum. Qed.
+Theorem C20_snapshot_truncated_null_deref_refuted :
+  run (cfg0 false) env0 [ERx 0 (fmsg 122 13 [1; 0])] fs0 1000 [] = RFault /\
+  run (cfg0 false) env0 [ERx 0 (fmsg 123 13 [1; 0])] fs0 1000 [] = RFault /\
+  run (cfg0 false) env0 [ERx 0 (fmsg 120 13 [1; 0])] fs0 1000 [] = RFault /\
+  run (cfg0 false) env0 [ERx 0 m_select; ERx 0 (fmsg 124 13 [1; 0])] fs0 1000 [] = RFault /\
+  run (cfg0 false) env0 [ERx 0 (fmsg 120 13 [1; 0; 5; 0; 0; 0]); ERx 0 (fmsg 121 13 [1; 0])] fs0 1000 [] = RFault /\
+  run (cfg0 false) env0 [ERx 0 (fmsg 120 13 [1; 0; 5; 0; 0; 0]); ERx 0 (fmsg 121 13 [1; 0; 1; 5; 0; 0; 0]); ERx 0 (fmsg 125 13 [1; 0; 1; 9; 7])] fs0 1000 [] = RFault /\
+  (exists s o, run (cfg0 true) env0 [ERx 0 (fmsg 122 13 [1; 0])] fs0 1000 [] = ROk s 1000 o).
+Proof. exact snapshot_truncated_faults. Qed.
+
+(* non-vacuity: concrete messages satisfy the hypotheses of C20_bytes_exact (two sections, one repetition) *)
+Example C20_example :
+  good_cfg (cfg0 true) /\ good_env env0 /\ is_select (cfg0 true) env0 m_select /\ is_call_file (cfg0 true) env0 m_callfile /\
+  plan_ok (cfg0 true) env0 1 [(m_callsec 1, [m_ack 1 4], m_ack 1 3); (m_callsec 2, [], m_ack 2 3)] /\ is_ack (cfg0 true) env0 (m_ack 3 1) 1.
+Proof. exact example_messages_ok. Qed.
